@@ -155,7 +155,7 @@ def finish(pid, tier, seed, engines, wall, level="model_checking", assumptions=(
     viol, known = [], []
     for e in engines:
         for v in e.violations:
-            if (select(v) if select else v["property"] == pid):
+            if (select(v) if select else (v["property"] == pid or pid in v.get("also", ()))):
                 v = dict(v)
                 v["property"] = pid
                 f = match_finding(v, findings)
